@@ -180,6 +180,7 @@ for _k, _kind in [
     ("nom::multi::count", "count"),
     ("nom::multi::many_m_n", "many_m_n"),
     ("nom::sequence::delimited", "delimited"),
+    ("nom::combinator::map_parser", "map_parser"),
     ("nom::sequence::terminated", "terminated"),
     ("nom::sequence::preceded", "preceded"),
     ("nom::sequence::pair", "pair"),
@@ -1462,8 +1463,11 @@ def h_try_into(I, st, callee, target, args, ctx):
     t = I.f.types[ty]
     # Result<heapless::Vec<u8,N>, ()>
     if t["k"] == "adt" and t["def"] == RESULT:
-        okt = I.f.types[t["args"][0]["ty"]]
+        okt = I.rty(t["args"][0]["ty"])
         cap = vec_cap(I, okt)
+        if isinstance(v, VSlice) and okt["k"] == "adt" and okt["def"] == "alloc::vec::Vec":
+            # TryFrom via the blanket impl over From: Vec::from(slice), infallible
+            return [(st, mk_ok(VSeq(("slice", v.buf, v.start, v.len), None)))]
         if isinstance(v, VSlice) and cap is not None:
             over = decide_le0(st, -v.len + cap + 1, "heapless try_from")   # cap < len
             if over:
@@ -2515,3 +2519,20 @@ def h_str_get(I, st, callee, target, args, ctx):
     s1.pc.opq[key] = True
     s2.pc.opq[key] = False
     return [(s1, mk_some(VStr(("substr", v.term, lo.key(), hi.key())))), (s2, NONE)]
+
+
+@parser("map_parser")
+def p_map_parser(I, st, pv, inp, ctx):
+    """map_parser(p, q): q is applied to the output of p; what q leaves over is dropped"""
+    out = []
+    for s2, r in run(I, st, pv.args[0], inp, ctx):
+        if not is_ok(r):
+            out.append((s2, r))
+            continue
+        rest, o1 = r.fields[0].items
+        for s3, r2 in run(I, s2, pv.args[1], o1, ctx):
+            if is_ok(r2):
+                out.append((s3, ok_pair(rest, r2.fields[0].items[1])))
+            else:
+                out.append((s3, r2))
+    return out
